@@ -246,6 +246,42 @@ def drain_model_compare(gen: int, script, out, pid0: int):
     return None
 
 
+def teardown_model_compare(gen: int, script, out, pid0: int):
+    """A send() that lands in the teardown window (the client has closed its transport, is_connected is still true)
+    finds a dead writer: it behaves like a send whose write fails.  So the big-step socket model (Sock.v, whose
+    theorems cover write failures) applies to the history in which [sendclose k pol; <what tore the link down>] is
+    replaced by [failw; send k pol].  -> 'skipped' | None (same frames in the same order, same send results) |
+    description of the difference"""
+    kinds = [st[0] for st in script]
+    if kinds.count("sendclose") != 1 or any(k in ("bp", "close", "send2", "subsend", "trunc", "burn") for k in kinds):
+        return "skipped"
+    i = kinds.index("sendclose")
+    if i + 1 >= len(script) or script[i + 1][0] not in ("reset", "eof", "rst", "bad"):
+        return "skipped"
+    hook = [e for e in out[i + 1] if e[0] == "hooksend"]
+    if not hook:
+        return "skipped"                       # the link was already down: nothing was torn down
+    if len(hook[0]) > 1 and hook[0][1]:
+        # the connection had already been lost (peer reset) when the client closed it: no window, the client is
+        # disconnected by the time the other task runs - the send simply follows the loss
+        rewritten = list(script[:i]) + [script[i + 1], ("send", script[i][1], script[i][2])] + list(script[i + 2:])
+    else:
+        rewritten = list(script[:i]) + [("failw",), ("send", script[i][1], script[i][2])] + list(script[i + 2:])
+    res = common.run_model([sockcorr.to_model(gen, rewritten, pid0)])[0]
+    per_op = sockcorr.parse_model(res)
+    m_w = [(e[3], e[4]) for evs in per_op for e in evs if e[0] == "wrote"]
+    m_r = [e for evs in per_op for e in evs if e[0] in ("sendok", "senderr")]
+    i_w = [(e[2], e[3]) for evs in out for e in evs if e[0] == "wrote"]
+    i_r = [tuple(e) for evs in out for e in evs if e[0] in ("sendok", "senderr")]
+    if any(e[0] in ("tie", "crash") for evs in out for e in evs):
+        return "skipped"
+    if i_w != m_w:
+        return f"frames written (message, packet id): implementation {i_w}, socket model on the rewritten history {m_w}"
+    if len(i_r) != len(m_r):
+        return f"send results: implementation {i_r}, model {m_r}"
+    return None
+
+
 def run(ck: common.Check, prop: str, tier: str) -> None:
     rng = random.Random(ck.seed * 613 + {"C01": 1, "C02": 2}.get(prop, 3))
     n = 0
@@ -257,6 +293,18 @@ def run(ck: common.Check, prop: str, tier: str) -> None:
             ck.count()
             bad = monitor(gen, script, out, pid0)
             mdiff = drain_model_compare(gen, script, out, pid0)
+            tdiff = teardown_model_compare(gen, script, out, pid0)
+            if tdiff == "skipped":
+                tdiff = None
+            elif tdiff is None:
+                ck.extra["teardown_socket_model_agreements"] = ck.extra.get("teardown_socket_model_agreements", 0) + 1
+            elif not bad and nmodel_bad < 2:
+                nmodel_bad += 1
+                ck.violation("socket model (send in the teardown window = send whose write fails) and implementation disagree",
+                             {"kind": "socket-script-teardown-model", "gen": gen, "script": [list(x) for x in script],
+                              "impl_trace": [[list(e) for e in evs] for evs in out], "first_difference": tdiff,
+                              "no_longer_checks": "coq/sock/Sock.v (theorems of C01/C02) on the history with [failw; send] in place of the window",
+                              "trigger": {"class": "teardown-model"}}, found_input=False)
             if mdiff == "skipped":
                 mdiff = None
                 ck.extra["backpressure_outside_queue_model"] = ck.extra.get("backpressure_outside_queue_model", 0) + 1
